@@ -1,9 +1,12 @@
 package wire
 
 import (
+	"bytes"
 	"encoding/binary"
 	"errors"
 	"fmt"
+	"regexp"
+	"strconv"
 
 	"github.com/jackc/pgx/v5/pgtype"
 )
@@ -47,12 +50,51 @@ func decodeValue(tm *pgtype.Map, typed *pgtype.Type, format FormatCode, value []
 
 	if format == BinaryFormat {
 		err = checkElementCount(typed.Codec, value)
-		if err != nil {
-			return nil, err
-		}
+	} else {
+		err = checkDimensionDecoration(typed.Codec, value)
+	}
+
+	if err != nil {
+		return nil, err
 	}
 
 	return typed.Codec.DecodeValue(tm, typed.OID, int16(format), value)
+}
+
+// dimensionDecoration matches the explicit dimensions which could precede the
+// elements of an array in its text representation: [1:3][0:1]={{1,2},{3,4},{5,6}}
+var dimensionDecoration = regexp.MustCompile(`^\[([+-]?\d+):([+-]?\d+)\]`)
+
+// checkDimensionDecoration is the text format counterpart of checkElementCount.
+// An array could announce its dimensions ahead of its elements, the codec
+// allocates room for all of them before reading the first element. An array
+// announcing more elements than the value has bytes is rejected.
+func checkDimensionDecoration(codec pgtype.Codec, value []byte) error {
+	if _, ok := codec.(*pgtype.ArrayCodec); !ok {
+		return nil
+	}
+
+	elements := int64(1)
+	remaining := bytes.TrimLeft(value, " \t\n\r\v\f")
+	for {
+		match := dimensionDecoration.FindSubmatch(remaining)
+		if match == nil {
+			return nil
+		}
+
+		lower, lerr := strconv.ParseInt(string(match[1]), 10, 64)
+		upper, uerr := strconv.ParseInt(string(match[2]), 10, 64)
+		if lerr != nil || uerr != nil || upper < lower || upper-lower >= int64(len(value)) {
+			return fmt.Errorf("unexpected array dimension: %s", match[0])
+		}
+
+		elements *= upper - lower + 1
+		if elements > int64(len(value)) {
+			return fmt.Errorf("unexpected array dimensions, the announced elements exceed the given value of %d bytes", len(value))
+		}
+
+		remaining = remaining[len(match[0]):]
+	}
 }
 
 // checkElementCount guards the container codecs which allocate room for all
